@@ -55,14 +55,16 @@ PARTS = {
     "BioConsert": [],
     "BioConsert[Copeland,KwikSort]": ["Copeland", "KwikSortRandom"],
     "BioConsert[PickAPerm]": ["PickAPerm"],
+    "BioConsert[KwikSort,Borda]": ["KwikSortRandom", "Borda"],
     "BioCo": ["Borda"],
     "ParCons": ["BioConsert"],
     "ParCons(bound=0)": ["BioConsert"],
     "ParCons(bound=2,aux=KwikSort)": ["KwikSortRandom"],
+    "ParCons(bound=3,aux=KwikSort)": ["KwikSortRandom"],
     "ParCons(bound=0,aux=BioCo)": ["BioCo"],
 }
 LEAF_SITE = {"BordaBucketId": "Borda"}
-MUST_REFUSE = ("Borda", "BordaBucketId", "PickAPerm", "BioCo", "BioConsert[PickAPerm]")
+MUST_REFUSE = ("Borda", "BordaBucketId", "PickAPerm", "BioCo", "BioConsert[PickAPerm]", "BioConsert[KwikSort,Borda]")
 BORDA_OK = [D.unifying(1.), D.unifying(.5), D.induced(1.), D.induced(.5)]
 
 
